@@ -349,4 +349,4 @@ def run(acc, tier):
     if tier == "quick":
         engine.pmap(acc, shard_schedules, extra=(100, 3, 5, True))
     else:
-        engine.pmap(acc, shard_schedules, extra=(400, 20, 30, True))
+        engine.pmap(acc, shard_schedules, extra=(3000, 60, 40, True))
